@@ -68,9 +68,15 @@ Record usercode := {
 }.
 
 Record config := {
-  parent_concurrently : bool;
-  list_concurrently : bool      (* no observable effect in this schedule; kept for Async.v *)
+  parent_concurrently : bool;   (* coerce_parent_concurrently: the engine-wide default *)
+  list_concurrently : bool;     (* no observable effect in this schedule; kept for Async.v *)
+  (* @Resolver("Parent.field", parent_concurrently=...): the per-field setting resolved at bake time
+     (types/field.py: query_parent_concurrently if not None else the schema's default) *)
+  field_parent : string -> string -> option bool;
+  field_list : string -> string -> option bool     (* likewise for list_concurrently (Async.v only) *)
 }.
+Definition uniform_cfg (p l : bool) : config :=
+  {| parent_concurrently := p; list_concurrently := l; field_parent := fun _ _ => None; field_list := fun _ _ => None |}.
 
 (* ---------- state ---------- *)
 Record st := { s_errors : list gerr; s_log : list call }.
@@ -367,6 +373,70 @@ Fixpoint exec_fields_seq (rf : string -> list fnode -> M (option pyval)) (fs : f
         end
     end.
 
+(* execute_fields with PER-FIELD settings: in one pass over the fields, a sequential field is awaited
+   on the spot (its exception propagates at once: later fields are never started, the deferred ones
+   neither), a concurrent one is deferred; afterwards all deferred ones run (gather with
+   return_exceptions=True: every one of them, exceptions collected); results by field position *)
+Fixpoint mixed_pass1 (isc : string -> list fnode -> bool) (rf : string -> list fnode -> M (option pyval))
+         (fs : fields) : M (list (option (option pyval))) :=
+  fun s =>
+    match fs with
+    | [] => (OVal [], s)
+    | (k, nodes) :: rest =>
+        if isc k nodes then
+          match mixed_pass1 isc rf rest s with
+          | (OVal slots, s') => (OVal (None :: slots), s')
+          | (OExc l, s') => (OExc l, s')
+          | (OCrash e, s') => (OCrash e, s')
+          end
+        else
+          match rf k nodes s with
+          | (OCrash e, s1) => (OCrash e, s1)
+          | (OExc l, s1) => (OExc l, s1)
+          | (OVal o, s1) =>
+              match mixed_pass1 isc rf rest s1 with
+              | (OVal slots, s2) => (OVal (Some o :: slots), s2)
+              | (OExc l, s2) => (OExc l, s2)
+              | (OCrash e, s2) => (OCrash e, s2)
+              end
+          end
+    end.
+
+Fixpoint mixed_pass2 (rf : string -> list fnode -> M (option pyval)) (fs : fields)
+         (slots : list (option (option pyval))) : M (list (string * pyval)) :=
+  fun s =>
+    match fs, slots with
+    | (k, nodes) :: rest, Some o :: srest =>
+        let (rs, s2) := mixed_pass2 rf rest srest s in
+        match rs with
+        | OVal kv => (OVal (match o with Some v => (k, v) :: kv | None => kv end), s2)
+        | OExc l => (OExc l, s2)
+        | OCrash e => (OCrash e, s2)
+        end
+    | (k, nodes) :: rest, None :: srest =>
+        let (r, s1) := rf k nodes s in
+        let (rs, s2) := mixed_pass2 rf rest srest s1 in
+        match r, rs with
+        | OCrash e, _ => (OCrash e, s2)
+        | _, OCrash e => (OCrash e, s2)
+        | OVal (Some v), OVal kv => (OVal ((k, v) :: kv), s2)
+        | OVal None, OVal kv => (OVal kv, s2)
+        | OVal _, OExc l => (OExc l, s2)
+        | OExc l, OVal _ => (OExc l, s2)
+        | OExc l, OExc l' => (OExc (l ++ l'), s2)
+        end
+    | _, _ => (OVal [], s)
+    end.
+
+Definition exec_fields_mixed (isc : string -> list fnode -> bool) (rf : string -> list fnode -> M (option pyval))
+           (fs : fields) : M (list (string * pyval)) :=
+  fun s =>
+    match mixed_pass1 isc rf fs s with
+    | (OVal slots, s1) => mixed_pass2 rf fs slots s1
+    | (OExc l, s1) => (OExc l, s1)
+    | (OCrash e, s1) => (OCrash e, s1)
+    end.
+
 Definition typename_field : field_def :=
   {| fd_name := "__typename"; fd_type := TNonNull (TNamed "String"); fd_args := [] |}.
 
@@ -382,6 +452,13 @@ Definition get_field_definition (ptype fname : string) : option field_def :=
    sub-objects (the same function at a smaller fuel). *)
 Definition rfun := string -> pyval -> list pkey -> string -> list fnode -> M (option pyval).
 
+(* field_definition.parent_concurrently of the field a response key selects on the parent type *)
+Definition field_conc (otype : string) (k : string) (nodes : list fnode) : bool :=
+  match nodes with
+  | n :: _ => match field_parent cfg otype (fn_name n) with Some b => b | None => parent_concurrently cfg end
+  | [] => parent_concurrently cfg
+  end.
+
 (* complete_object_value: collect_subfields + execute_fields *)
 Definition exec_sub (rf : rfun) (nodes : list fnode) (otype : string) (value : pyval)
            (opath : list pkey) : M pyval :=
@@ -389,9 +466,7 @@ Definition exec_sub (rf : rfun) (nodes : list fnode) (otype : string) (value : p
     match collect_subfields COLLECT_FUEL otype nodes [] [] with
     | None => (OCrash KeyError, s0)
     | Some sub =>
-        match (if parent_concurrently cfg
-               then exec_fields_conc (fun k ns => rf otype value opath k ns) sub s0
-               else exec_fields_seq (fun k ns => rf otype value opath k ns) sub s0) with
+        match exec_fields_mixed (field_conc otype) (fun k ns => rf otype value opath k ns) sub s0 with
         | (OVal kv, s1) => (OVal (PDict kv), s1)
         | (OExc l, s1) => (OExc l, s1)
         | (OCrash e, s1) => (OCrash e, s1)
@@ -545,8 +620,7 @@ Definition execute_operation (op : operation) (root_value : pyval) : outcome res
           let rf := fun k ns => resolve_field EXEC_FUEL rt root_value [] k ns in
           let run := match o_kind op with
                      | OpMutation => exec_fields_seq rf fs
-                     | _ => if parent_concurrently cfg then exec_fields_conc rf fs
-                            else exec_fields_seq rf fs
+                     | _ => exec_fields_mixed (field_conc rt) rf fs
                      end in
           match run st0 with
           | (OVal kv, s) => OVal {| r_data := PDict kv; r_errors := s_errors s; r_log := s_log s |}
